@@ -369,10 +369,12 @@ def h_resolve(X):
     headers = ([("host", hosthdr)] if hosthdr else []) + ([("accept-encoding", "br")] if enc else []) + [("x-h", "v")] + (dup or [])
     if dup:
         X.reach("repeated-header")
+    # httpie has no --resolve equivalent: the format dimension is crossed with the header shapes only
+    fmt = "curl" if (opt or peer is not None) else X.choose("format", ["curl", "httpie"])
     f = _mkflow(method.encode(), [(k.encode(), v.encode()) for k, v in headers], b"/p", body.encode(), peer=peer)
     t.options.export_preserve_original_ip = opt
     try:
-        cmd = export.curl_command(f)
+        cmd = (export.curl_command if fmt == "curl" else export.httpie_command)(f)
     finally:
         t.options.export_preserve_original_ip = False
     # independent expectation of host / port shown in the URL
@@ -392,6 +394,10 @@ def h_resolve(X):
     X.reach("exported")
     if exp["resolve"]:
         X.reach("resolve")
+    if fmt == "httpie":
+        X.reach("httpie-decoded-options")
+        judge_httpie(X, cmd, shell_eval(X, cmd, "bash"), exp)
+        return
     judge_curl(X, cmd, shell_eval(X, cmd, "bash"), exp)
 
 
@@ -485,7 +491,8 @@ def obligations(tier):
              must_reach=["exported", "curl-decoded", "httpie-decoded", "body-exact", "printf-shape", "embedded-single-quote"], parallel_depth=3),
         Symx("curl-options", h_resolve,
              bounds="export_preserve_original_ip on/off x server peername {none, 192.168.0.1, equal to host, ::1} x Host header {none, other.example:81, same} x GET/POST x body/no body "
-                    "x accept-encoding x repeated header names {none, x-dup twice, cookie/Cookie, x-dup around another field}", encoded=ENCODED[:5], must_reach=["exported", "resolve", "curl-decoded", "repeated-header"]),
+                    "x accept-encoding x repeated header names {none, x-dup twice, cookie/Cookie, x-dup around another field}; the httpie export is crossed with "
+                    "the header shapes (no peername / --resolve there)", encoded=ENCODED[:5], must_reach=["exported", "resolve", "curl-decoded", "repeated-header", "httpie-decoded-options"]),
         Symx("raw-reparse", lambda X: h_raw(X, 1 if q else 2),
              bounds=f"raw_request of representable requests: method from {RAW_METHODS}, header name from {RAW_NAMES}, header value / path / body = strings of <= {1 if q else 2} characters over "
                     "the alphabet (no CR/LF in values, no blanks in the target) x Content-Encoding none / gzip / undecodable gzip x chunked x origin/absolute form; re-parsed by vf/refs/http1ref.py",
